@@ -20,6 +20,7 @@ LocalMatches(L) ==
      /\ Len(o.ids) = Cardinality(AsSet(o.ids))            \* every event recorded once
      /\ AsSet(o.ids) = L[o.i].ids
      /\ o.nedits = L[o.i].nedits
+     /\ o.title = CurTitle(L[o.i], tracker'[o.i])        \* the title the bug shows (named by the title event that announced it)
 
 TInit == Init /\ l = 1
 Reset == IsEv("Reset") /\ now' = 10 /\ nextid' = 101 /\ cursor' = 0 /\ grown' = FALSE
